@@ -112,8 +112,23 @@ func libDecodePDU(s *refper.Schema, b []byte) (n *refper.Node, err error, panick
 		return nil, err, false
 	}
 	n, e := gobridge.FromGo(s, "NGAPPDU", reflect.ValueOf(pdu))
+	ngapDecodeAliases = ""
+	if e == nil {
+		// the caller re-uses its receive buffer: the decoded value must not change with it
+		keep := append([]byte{}, b...)
+		for i := range b {
+			b[i] ^= 0xa5
+		}
+		if n2, e2 := gobridge.FromGo(s, "NGAPPDU", reflect.ValueOf(pdu)); e2 != nil || !refper.Equal(n, n2) {
+			ngapDecodeAliases = "after the input buffer was overwritten the decoded PDU reads differently: " + refper.FirstDiff(n2, n, "")
+		}
+		copy(b, keep)
+	}
 	return n, e, false
 }
+
+// ngapDecodeAliases: set by libDecodePDU / libDecodeTransfer when the decoded value shares memory with the input.
+var ngapDecodeAliases string
 
 func libEncodeTransfer(s *refper.Schema, typ string, n *refper.Node) (b []byte, err error, panicked bool) {
 	t := transferTypes[typ]
@@ -144,6 +159,17 @@ func libDecodeTransfer(s *refper.Schema, typ string, b []byte) (n *refper.Node, 
 		return nil, err, false
 	}
 	n, e := gobridge.FromGo(s, typ, v)
+	ngapDecodeAliases = ""
+	if e == nil {
+		keep := append([]byte{}, b...)
+		for i := range b {
+			b[i] ^= 0xa5
+		}
+		if n2, e2 := gobridge.FromGo(s, typ, v); e2 != nil || !refper.Equal(n, n2) {
+			ngapDecodeAliases = "after the input buffer was overwritten the decoded value reads differently: " + refper.FirstDiff(n2, n, "")
+		}
+		copy(b, keep)
+	}
 	return n, e, false
 }
 
